@@ -76,7 +76,7 @@ theorem sharesRole_iff (c : Client) (k : Key) : sharesRole c k = true ↔ ∃ r,
 theorem view_entitled {fixed : Bool} {cfg : Config} {c : Client} {user ip : String} {ep : Endpoint} {n : String}
     (hn : ep.keyName = some n)
     (hs : (view fixed cfg c user ip ep).is2xx = true ∨ (view fixed cfg c user ip ep).events ≠ []) :
-    ∃ t, resolve cfg n = some t ∧ allowed c t = true ∧ ∀ e ∈ (view fixed cfg c user ip ep).events, e.token = t.token := by
+    ∃ t, resolve cfg n = some t ∧ allowed c t = true ∧ ∀ e ∈ (view fixed cfg c user ip ep).events, e.token = t.token ∧ e.key = t.name := by
   cases ep with
   | health => simp [Endpoint.keyName] at hn
   | directory => simp [Endpoint.keyName] at hn
